@@ -232,7 +232,8 @@ Theorem cs3_identities z :
   let '(z', n, _) := quarter3 RNum QFUEL z O in
   cs_inv z' (series3 RNum z') -> cs_inv z (fst (stumpff_cs3 RNum z)).
 Proof.
-  unfold stumpff_cs3. destruct (quarter3 RNum QFUEL z O) as [[z' n] h] eqn:E.
+  unfold stumpff_cs3. cbv zeta. cbn [nisnan RNum].
+  destruct (quarter3 RNum QFUEL z O) as [[z' n] h] eqn:E.
   intros H. cbn [fst]. apply quarter3_spec in E. destruct E as [_ Hz].
   rewrite Nat.sub_0_r in Hz. eapply cs_inv_ext; [symmetry; exact Hz|].
   apply dbl3_loop_inv, H.
